@@ -87,13 +87,23 @@ def _mask_log_time(b):
     return _LOG_TIME.sub(b'[TIME] : ', b) if b'] : ' in b else b
 
 
-def fingerprint(res):
-    """everything observable of a run, as a comparable structure (rc, fields, bytes written)"""
+def _drop_log_lines(b):
+    """the alignment part of a stream: kalign's log lines removed (they may name the thread count, timings, ...)"""
+    if b'] : ' not in b:
+        return b
+    return b''.join(l for l in b.splitlines(True) if not _LOG_TIME.match(l))
+
+
+def fingerprint(res, alignment_only=False):
+    """everything observable of a run, as a comparable structure (rc, fields, bytes written).  alignment_only: log
+    lines on stdout/stderr are left out (used where the two runs differ in thread count: C02 speaks about the
+    alignment, and a log line may legitimately name the number of threads)"""
     fp = []
+    norm = _drop_log_lines if alignment_only else _mask_log_time
     for i in sorted(res.ops):
         o = res.ops[i]
         fields = tuple(sorted((k, v) for k, v in o.f.items() if k not in ('bits',)))
-        outs = tuple(sorted((k, _mask_log_time(v) if k in ('stdout', 'stderr') and isinstance(v, bytes) else v) for k, v in o.out.items()))
+        outs = tuple(sorted((k, norm(v) if k in ('stdout', 'stderr') and isinstance(v, bytes) else v) for k, v in o.out.items()))
         fp.append((i, o.code, fields, outs))
     return fp
 
